@@ -184,7 +184,7 @@ func runFmtDelegate(c *core.Ctx) {
 	}
 	for k := range fmtDelegateTabled {
 		if !tabledSeen[k] {
-			c.InternalErr(k, "tabled R-FMT-DELEGATE exception no longer matches (stale table)")
+			c.Note("tabled R-FMT-DELEGATE exception %q matches no construct any more (harmless; table can be pruned)", k)
 		}
 	}
 	c.Min("instantiated module error types", n, 22)
@@ -345,7 +345,7 @@ func runDetailPrint(c *core.Ctx) {
 	}
 	for k := range detailPrintTabled {
 		if !seen[k] {
-			c.InternalErr(k, "tabled R-DETAIL-PRINT exception no longer matches (stale table)")
+			c.Note("tabled R-DETAIL-PRINT exception %q matches no construct any more (harmless; table can be pruned)", k)
 		}
 	}
 	c.Min("annotated types inspected", n, 18)
